@@ -109,6 +109,17 @@ func (cache *MemoryCache[K, V]) Set(key K, value V, ttlSec float64) error {
 		ttlDuration.Nanoseconds()
 
 	cache.mutex.Lock()
+	// The check above is only a cheap early exit; concurrent writers may all
+	// have passed it, so the limit is enforced again under the lock.
+	if cache.calculateCacheSize && cache.calculateSizeFunc != nil &&
+		cache.currentCacheSize+itemSize > cache.maxCacheSize {
+		currentCacheSize := cache.currentCacheSize
+		cache.mutex.Unlock()
+		return fmt.Errorf(
+			"Cannot add item: max cache size would be exceeded."+
+				" Current cache size is %v",
+			currentCacheSize)
+	}
 	cache.cache[key] = ValueWrapper[V]{value, expirationTimeNano}
 	if cache.calculateCacheSize {
 		cache.currentCacheSize += itemSize
